@@ -72,6 +72,72 @@ def tiny_engine(fl, n, ranges, values=None, same_names=False, disabled=None):
     return e
 
 
+def ob_used_engine(vfix, label):
+    """an engine that was USED before the export (one scalar evaluation that left a value in a lock-previous output variable): the
+    dataset holds "exactly the output values the engine produces" for the grid - the rows of a restarted engine; nothing of the
+    earlier evaluation shows, in particular not in leading rows that defuzzify to NaN"""
+    def run(ob):
+        fl = install()
+        set_mode("R")
+        lo, hi, t0 = rvar("lo"), rvar("hi"), rvar("t0")
+        pre = [lo.v < t0.v, t0.v < hi.v]
+        ins = {"lo": lo, "hi": hi, "t0": t0}
+
+        def rbody(v):
+            return "\n".join([f"lo, hi, t0, v = {lit(v['lo'])}, {lit(v['hi'])}, {lit(v['t0'])}, {vfix}",
+                              "X = fl.InputVariable('X', minimum=lo, maximum=hi, terms=[fl.Binary('a', t0, float('inf'))])",
+                              "O = fl.OutputVariable('O', minimum=0, maximum=1, lock_previous=True, defuzzifier=fl.WeightedAverage(), terms=[fl.Constant('k', 0.5)])",
+                              "e = fl.Engine('e', '', [X], [O], [])",
+                              "e.rule_blocks.append(fl.RuleBlock('rb', activation=fl.General(), rules=[fl.Rule.create('if X is a then O is k', e)]))",
+                              "X.value = hi; e.process()            # the engine has been used: O holds 0.5",
+                              "captured = {}",
+                              "import numpy; orig = numpy.savetxt",
+                              "numpy.savetxt = lambda w, T, **kw: captured.update(T=numpy.array(T, dtype=float))",
+                              "try:",
+                              "    fl.FldExporter().write_from_scope(e, None, v, fl.FldExporter.ScopeOfValues.EachVariable, None)",
+                              "finally: numpy.savetxt = orig",
+                              "T = captured['T']; xs = [lo + i * ((hi - lo) / (v - 1)) for i in range(v)]",
+                              "exp, last = [], float('nan')",
+                              "for x in xs:",
+                              "    last = 0.5 if x >= t0 else last",
+                              "    exp.append(last)",
+                              "verdict(T.shape != (v, 2) or not same(T[:, 1], exp, 1e-9), 'output column %r, a restarted engine gives %r (inputs %r, term starts at %r)' % (T[:, 1].tolist() if T.ndim == 2 else T, exp, xs, t0))"])
+
+        rp = replay_fn(PROPERTY, label, rbody, key=None)
+
+        def body():
+            X = fl.InputVariable("X", minimum=lo, maximum=hi, terms=[fl.Binary("a", t0, float("inf"))])
+            O = fl.OutputVariable("O", minimum=0, maximum=1, lock_previous=True, defuzzifier=fl.WeightedAverage(), terms=[fl.Constant("k", 0.5)])
+            e = fl.Engine("e", "", [X], [O], [])
+            e.rule_blocks.append(fl.RuleBlock("rb", activation=fl.General(), rules=[fl.Rule.create("if X is a then O is k", e)]))
+            X.value = hi
+            e.process()
+            inst.NP.savetxt_calls.clear()
+            fl.FldExporter().write_from_scope(e, None, vfix, fl.FldExporter.ScopeOfValues.EachVariable, None)
+            T, kw = inst.NP.savetxt_calls[-1]
+            return T
+
+        for p in ob.paths(pre, body):
+            if p.exc is not None:
+                ob.unexpected(pre, p, label, ins, rp)
+                continue
+            A = core._obj(p.result)
+            if A.shape != (vfix, 2):
+                ob.prove(pre, p, False, f"{label}: table of shape {A.shape}", ins, rp)
+                continue
+            claims, last = [], None          # last: (z3 real value, z3 "is NaN")
+            lastv, lastnan = z3.RealVal(0), z3.BoolVal(True)
+            for i in range(vfix):
+                x = lo.v + i * ((hi.v - lo.v) / (vfix - 1))
+                fires = x >= t0.v
+                lastv, lastnan = z3.If(fires, z3.RealVal("0.5"), lastv), z3.And(z3.Not(fires), lastnan)
+                o = tf(A[i, 1])
+                claims.append(z3.If(lastnan, ZB(o.nan), z3.And(ZB(o.fin()), o.v == lastv)))
+            ob.prove(pre, p, z3.And(*claims), label, ins, rp)
+
+    return run
+
+
 def ob_grid(scope, n, vmax, inactive=None, label="", vmin=1, same_names=False, disabled=None):
     def run(ob):
         fl = install()
@@ -367,6 +433,8 @@ def obligations(tier, seed):
     obs.append(("grid/all-variables/n2/inactive0", ob_grid("all", 2, 20, inactive=0, label="grid/all-variables/n2/inactive0")))
     # input variables need not have distinct names (unnamed variables share the name ""): columns are per variable, not per name
     obs.append(("grid/each-variable/n2/same-names", ob_grid("each", 2, 3, label="grid/each-variable/n2/same-names", same_names=True)))
+    for vfix in (2, 3):
+        obs.append((f"grid/used-engine-lock-previous/v{vfix}", ob_used_engine(vfix, f"grid/used-engine-lock-previous/v{vfix}")))
     obs.append(("grid/each-variable/n2/disabled1", ob_grid("each", 2, 3, label="grid/each-variable/n2/disabled1", disabled=1)))
     obs.append(("grid/all-variables/n2/disabled0", ob_grid("all", 2, 9, label="grid/all-variables/n2/disabled0", disabled=0)))
     obs.append(("grid/each-variable/n3/inactive1", ob_grid("each", 3, 3, inactive=1, label="grid/each-variable/n3/inactive1")))
